@@ -52,7 +52,8 @@ def worker(lane):
                 if kind == 'seeded': meta['detected'] = any(v['exit'] == 1 for v in det.values())
                 else: meta['quiet'] = all(v['exit'] == 0 for v in det.values())
                 json.dump(meta, open(mp, 'w'), indent=1)
-ts = [threading.Thread(target=worker, args=(i,)) for i in range(LANES)]
+base = int(os.environ.get('LANE_BASE', '0'))
+ts = [threading.Thread(target=worker, args=(base + i,)) for i in range(LANES)]
 [t.start() for t in ts]; [t.join() for t in ts]
 if kind == 'own':
     byprop = {}
